@@ -94,6 +94,8 @@ var c12AliasTables = []map[string]string{
 	{"Al.Missing": "A.Nope", "x": ""},
 	{"A.M": "B.Other", "B.Same": "A.N", "M": "B.Other"}, // alias names equal to (possibly) direct names
 	{"Al.Two": "Al.One", "Al.One": "A.M"},
+	// names are arbitrary strings: non-ASCII, control characters, longer than any metrics tag would allow
+	{"A→Größe": "A.M", strings.Repeat("L", 300) + ".X": "B.Other", "Tab\tName": "A.N", "服务.方法": "B.Same"},
 }
 
 func (c12) Plan(tier string, seed int64) []core.Scenario {
@@ -220,7 +222,7 @@ func (c12) names(sc core.Scenario, r *core.R) {
 	aliases := c12AliasTables[sc.I("alias")]
 	rpc, h, table := c12Server(fm.f, fm.ref, aliases)
 	// candidate universe
-	cand := map[string]bool{"": true, "A.": true, ".M": true, "M": true, "m": true, ".": true, "A": true, "A.M.": true, " A.M": true, "A..M": true, "a.M": true, "A.m": true, "B.lowerX": true, "B.LowerX": true, "lowerX": true}
+	cand := map[string]bool{"": true, "A.": true, ".M": true, "M": true, "m": true, ".": true, "A": true, "A.M.": true, " A.M": true, "A..M": true, "a.M": true, "A.m": true, "B.lowerX": true, "B.LowerX": true, "lowerX": true, "A.Mé": true, "Ä.M": true, "A.M\x7f": true, strings.Repeat("A", 256) + ".M": true}
 	for _, f2 := range c01Formatters {
 		for _, rg := range c12Regs {
 			for _, m := range append(append([]string{}, rg.methods...), "Other", "N", "Nope") {
